@@ -81,6 +81,15 @@ def run(replay=None):
                 summary[mode]["absent_tried"] = r["tried"]
                 if r["resolved"]:
                     ck.impl_violation("absent-name-resolved:" + mode, "link mode %s: %d absent / near-miss names resolve to an address; first: %s" % (mode, r["resolved"], r["first"][:2]), r)
+            elif r["kind"] == "mocker-resolve":
+                ck.coverage["evaluations"] += 6
+                summary[mode]["mocker_resolve"] = {k: v for k, v in r.items() if k not in ("kind", "mode")}
+                if summary[mode].get("syms", 0) or mode in ("default", "external"):
+                    want = {"um1_mocked": 11, "um1_after_cancel": -7201, "um2_mocked": 22, "um1_meanwhile": -7201, "um2_after_cancel": -7301, "um1_end": -7201}
+                    bad = {k: r.get(k) for k, v in want.items() if r.get(k) != v}
+                    if (bad or r.get("panic")) and not (r.get("panic") and mode not in ("default", "external")):
+                        ck.impl_violation("resolved-to-other-symbol:mocker:" + mode, "link mode %s: a mocker object reused for another method name resolves the wrong symbol: %s %s (want %s)" % (
+                            mode, bad, r.get("panic") or "", {k: want[k] for k in bad}), r)
             elif r["kind"] == "history":
                 ck.coverage["evaluations"] += r["steps"]
                 summary[mode]["history_steps"] = r["steps"]
